@@ -296,6 +296,9 @@ fn run_case(c: &mut dyn Choices, ctx: &Ctx) -> Outcome {
   if case.cold_outer.is_some() {
     labels.push("outer:cold");
   }
+  if case.cold_outer.as_ref().map_or(false, |s| s.len() >= 100) {
+    labels.push("many-inners");
+  }
   if case.inners.iter().any(|i| matches!(i, Inner::Cold(_))) && case.inners.iter().any(|i| matches!(i, Inner::Hot(_))) {
     labels.push("mixed-cold-hot-inners");
   }
